@@ -33,45 +33,53 @@ theorem nodeLoop_oob (c : Cfg) (nodes : List NodeSt) (r : Req) (cps spn req : Na
   | zero => rfl
   | succ k => unfold nodeLoop; rw [h]
 
+theorem finishTask_same (s : SchedSt) (r : Req) (it : IterSt) : Same s (finishTask s r it).2 := by
+  unfold finishTask
+  split
+  · exact ⟨rfl, rfl, rfl⟩
+  · split <;> exact ⟨rfl, rfl, rfl⟩
+
 /-- `schedule_task` does not touch the node map, the held placements or the counter -/
 theorem scheduleTask_same (c : Cfg) (s : SchedSt) (r : Req) : Same s (scheduleTask c s r).2 := by
   unfold scheduleTask
-  simp only
   split
   · exact Same.refl s
   · split
     · exact Same.refl s
     · split
       · exact ⟨rfl, rfl, rfl⟩
-      · split
-        · exact ⟨rfl, rfl, rfl⟩
-        · split <;> exact ⟨rfl, rfl, rfl⟩
+      · exact finishTask_same s r _
 
 /-- what `schedule_task` returns can be placed on the current node map -/
 theorem scheduleTask_placeable (c : Cfg) (s : SchedSt) (r : Req) (slots : List Slot)
     (hw : NodesWF s.nodes) (hnn : NonNeg s.nodes) (h : (scheduleTask c s r).1 = .ok (some slots)) :
     Placeable s.nodes slots := by
   unfold scheduleTask at h
-  simp only at h
-  split at h
-  · cases h
-  · split at h
-    · cases h
-    · have hcps : 0 < (if r.cpr = 0 then 1 else r.cpr) := by split <;> omega
-      split at h
-      · cases h
-      · rename_i it hit
+  by_cases h1 : cpsOf r > c.cpn ∨ r.gpr > c.gpn * 16 ∨ r.lfs > c.lfsPn ∨ r.mem > c.memPn
+  · rw [if_pos h1] at h; cases h
+  · rw [if_neg h1] at h
+    by_cases h2 : ¬ decide (r.ranks > 1) = true ∧ r.ranks.toNat > slotsPerNode c r (cpsOf r)
+    · rw [if_pos h2] at h; cases h
+    · rw [if_neg h2] at h
+      have hcps : 0 < cpsOf r := by unfold cpsOf; split <;> omega
+      cases hnl : nodeLoop c s.nodes r (cpsOf r) (slotsPerNode c r (cpsOf r)) r.ranks.toNat (decide (r.ranks > 1))
+                    (coloOf s r) (skipOf s r) s.nodes.length { rem := r.ranks.toNat, offset := s.offset } with
+      | error p => obtain ⟨e, off⟩ := p; rw [hnl] at h; cases h
+      | ok it =>
+        rw [hnl] at h
+        simp only at h
         have hpl : Placeable s.nodes it.alc := by
           by_cases hoff : s.offset < s.nodes.length
-          · refine nodeLoop_placeable c s.nodes r _ _ _ _ _ _ hw hnn hcps s.offset s.nodes.length 0 _ it (by omega) ?_ hit
+          · refine nodeLoop_placeable c s.nodes r _ _ _ _ _ _ hw hnn hcps s.offset s.nodes.length 0 _ it (by omega) ?_ hnl
             refine ⟨?_, placeable_nil s.nodes hnn, fun sl hs => by cases hs⟩
             show s.offset = (s.offset + 0) % s.nodes.length
             rw [Nat.add_zero, Nat.mod_eq_of_lt hoff]
           · have hnone : s.nodes[s.offset]? = none := by
               rw [List.getElem?_eq_none_iff]; omega
-            rw [nodeLoop_oob c s.nodes r _ _ _ _ _ _ _ _ hnone] at hit
-            injection hit with hit; subst hit
+            rw [nodeLoop_oob c s.nodes r _ _ _ _ _ _ _ _ hnone] at hnl
+            injection hnl with hnl; subst hnl
             exact placeable_nil s.nodes hnn
+        unfold finishTask at h
         split at h
         · cases h
         · split at h
@@ -143,17 +151,17 @@ theorem bisLoop_inv (c : Cfg) (nodes0 : List NodeSt) (data : List Req) :
         · exact ih _ _ h
         · split
           · exact ih _ _ h
-          · rename_i g _ _ _ _
+          · rename_i _ _ g _ _ _ _ _
             have := bisCheck_inv c nodes0 data (g - 1) b s h
             split <;> (rename_i heq; rw [heq] at this; exact ih _ _ this)
     · -- _, some bad
       split
       · exact h
-      · rename_i og bad _ _ _
+      · rename_i _ _ bad _ _
         have hmid : SInv nodes0
-            (if bisIdx (resetGood og bad) bad ∈ b.good then (true, b, s)
-             else if bisIdx (resetGood og bad) bad ∈ b.bad then (false, b, s)
-             else bisCheck c data (bisIdx (resetGood og bad) bad) b s).2.2 := by
+            (if bisIdx (resetGood b.lastGood bad) bad ∈ b.good then (true, b, s)
+             else if bisIdx (resetGood b.lastGood bad) bad ∈ b.bad then (false, b, s)
+             else bisCheck c data (bisIdx (resetGood b.lastGood bad) bad) b s).2.2 := by
           split
           · exact h
           · split
@@ -185,9 +193,6 @@ theorem waitpoolOne_inv (c : Cfg) (nodes0 : List NodeSt) (s : SchedSt) (p : Int)
     · have := lazyBisect_inv c nodes0
         (sortDesc (fun r => r.ranks * r.cpr * r.gpr)
           ((poolOf s.waitpool p).filter (fun r => match r.env with | some e => decide (e ∈ s.envs) | none => true))) s h
-      split
-      rename_i b s' heq
-      rw [heq] at this
       exact this.of_same ⟨rfl, rfl, rfl⟩
 
 theorem scheduleWaitpool_inv (c : Cfg) (nodes0 : List NodeSt) (s : SchedSt) (h : SInv nodes0 s) :
@@ -308,15 +313,6 @@ theorem scheduleIncoming_inv (c : Cfg) (nodes0 : List NodeSt) (s : SchedSt) (msg
 
 /-! ### `_unschedule_completed` -/
 
-/-- the release messages name placements that are held, each at most once: what `given` records for
-    the uid is the next placement to be taken out of `held` -/
-def relOK (given held : List (Nat × List Slot)) : List Nat → Bool
-  | []      => true
-  | u :: us =>
-    match given.find? (fun e => e.1 = u) with
-    | some e => decide (e ∈ held) && relOK given (held.erase e) us
-    | none   => false
-
 theorem releaseOne_given (s : SchedSt) (u : Nat) : (releaseOne s u).given = s.given := by
   unfold releaseOne
   split
@@ -361,9 +357,6 @@ theorem releaseFold_inv (nodes0 : List NodeSt) (uids : List Nat) :
       simp only [length_cons] at *
       omega
 
-/-- the uids `_unschedule_completed` takes off its queue in this iteration -/
-def drained (s : SchedSt) (msgs : List (List Nat)) : List Nat := (drainUnsched (s.unschedQ ++ msgs) []).1
-
 theorem unscheduleCompleted_inv (nodes0 : List NodeSt) (s : SchedSt) (msgs : List (List Nat)) (h : SInv nodes0 s)
     (hok : relOK s.given s.held (drained s msgs) = true) :
     SInv nodes0 (unscheduleCompleted s msgs).1 := by
@@ -379,7 +372,7 @@ theorem unscheduleCompleted_inv (nodes0 : List NodeSt) (s : SchedSt) (msgs : Lis
     rw [this.2.2]
     have hl := this.2.1
     simp only at hl ⊢
-    rw [h.2]
+    have hcnt := h.2
     omega
 
 /-! ### the loop -/
@@ -387,25 +380,25 @@ theorem unscheduleCompleted_inv (nodes0 : List NodeSt) (s : SchedSt) (msgs : Lis
 theorem loopIterA_inv (c : Cfg) (nodes0 : List NodeSt) (s : SchedSt) (res : Bool) (it : Iter) (h : SInv nodes0 s) :
     SInv nodes0 (loopIterA c s res it).1 := by
   unfold loopIterA
-  simp only
   have h0 : SInv nodes0 { s with cancel := s.cancel ++ it.marks, envs := s.envs ++ it.envs } := h.of_same ⟨rfl, rfl, rfl⟩
-  have hw : SInv nodes0 (if res = true then scheduleWaitpool c { s with cancel := s.cancel ++ it.marks, envs := s.envs ++ it.envs }
-                         else ({ s with cancel := s.cancel ++ it.marks, envs := s.envs ++ it.envs }, [], false, false)).1 := by
-    split
-    · exact scheduleWaitpool_inv c nodes0 _ h0
-    · exact h0
-  have := scheduleIncoming_inv c nodes0 _ it.incoming hw
-  split
-  rename_i heq
-  rw [heq] at this
-  exact this
+  cases res with
+  | true =>
+    have hw := scheduleWaitpool_inv c nodes0 _ h0
+    have := scheduleIncoming_inv c nodes0 _ it.incoming hw
+    simpa using this
+  | false =>
+    have := scheduleIncoming_inv c nodes0 _ it.incoming h0
+    simpa using this
 
 /-- every iteration's release messages are well formed (see `relOK`), along the run -/
-def RunOK (c : Cfg) : SchedSt → Bool → List Iter → Prop
-  | _, _,   []        => True
-  | s, res, it :: its =>
+def RunOK (c : Cfg) (s : SchedSt) (res : Bool) (its : List Iter) : Prop := runOK c s res its = true
+
+theorem runOK_cons (c : Cfg) (s : SchedSt) (res : Bool) (it : Iter) (its : List Iter) (h : RunOK c s res (it :: its)) :
     relOK (loopIterA c s res it).1.given (loopIterA c s res it).1.held (drained (loopIterA c s res it).1 it.unsched) = true
-    ∧ RunOK c (loopIter c s res it).1 (loopIter c s res it).2.1 its
+    ∧ RunOK c (loopIter c s res it).1 (loopIter c s res it).2.1 its := by
+  unfold RunOK at *
+  unfold runOK at h
+  simpa using h
 
 theorem loopIter_inv (c : Cfg) (nodes0 : List NodeSt) (s : SchedSt) (res : Bool) (it : Iter) (h : SInv nodes0 s)
     (hok : relOK (loopIterA c s res it).1.given (loopIterA c s res it).1.held (drained (loopIterA c s res it).1 it.unsched) = true) :
@@ -415,11 +408,7 @@ theorem loopIter_inv (c : Cfg) (nodes0 : List NodeSt) (s : SchedSt) (res : Bool)
   rcases hl : loopIterA c s res it with ⟨s2, res1, evs⟩
   rw [hl] at hA hok
   simp only at hA hok ⊢
-  have := unscheduleCompleted_inv nodes0 s2 it.unsched hA hok
-  split
-  rename_i heq
-  rw [heq] at this
-  exact this
+  exact unscheduleCompleted_inv nodes0 s2 it.unsched hA hok
 
 theorem runLoop_inv (c : Cfg) (nodes0 : List NodeSt) (its : List Iter) :
     ∀ (s : SchedSt) (res : Bool) (acc : List (List Ev)), SInv nodes0 s → RunOK c s res its →
@@ -429,8 +418,8 @@ theorem runLoop_inv (c : Cfg) (nodes0 : List NodeSt) (its : List Iter) :
   | cons it its ih =>
     intro s res acc h hok
     unfold runLoop
-    have h1 := loopIter_inv c nodes0 s res it h hok.1
-    have h2 := hok.2
+    have h1 := loopIter_inv c nodes0 s res it h (runOK_cons c s res it its hok).1
+    have h2 := (runOK_cons c s res it its hok).2
     rcases hl : loopIter c s res it with ⟨s', res', evs⟩
     rw [hl] at h1 h2
     exact ih s' res' _ h1 h2
